@@ -1212,6 +1212,37 @@ fn lower_expr_with_args(
                                 combined_args.extend(trailing_args);
                                 lower_expr_with_args(ctx, other, combined_args)
                             }
+                        } else if matches!(&other, cst::Expr::ParenExpr(_)) {
+                            // A parenthesised callee is called as a whole: `(a + b)(c)` is not
+                            // `a + b(c)`, and `(if c { f } else { g })(x)` calls the selected function.
+                            let func_expr = lower_expr(ctx, other)?;
+                            if matches!(
+                                func_expr,
+                                ast::Expr::EPath { .. }
+                                    | ast::Expr::EConstr { .. }
+                                    | ast::Expr::EField { .. }
+                            ) {
+                                let mut combined_args = args;
+                                combined_args.extend(trailing_args);
+                                apply_trailing_args(
+                                    ctx,
+                                    func_expr,
+                                    combined_args,
+                                    Some(it.syntax().text_range()),
+                                )
+                            } else {
+                                let call = ast::Expr::ECall {
+                                    func: Box::new(func_expr),
+                                    args,
+                                    astptr,
+                                };
+                                apply_trailing_args(
+                                    ctx,
+                                    call,
+                                    trailing_args,
+                                    Some(it.syntax().text_range()),
+                                )
+                            }
                         } else {
                             let mut combined_args = args;
                             combined_args.extend(trailing_args);
